@@ -23,11 +23,11 @@ macro_rules
       simp only [Ctx.prevExists_strip, Ctx.prevNum_strip, Ctx.num_strip, Ctx.readingPeriod_strip,
         Ctx.candlesSum_strip, Ctx.reading_strip, Ctx.prevReading_strip,
         readingByIndex_strip, readingPeriod_strip, candlesSum_strip, readingByCandle_strip,
-        map_readingByCandle_strip, pyIndex_map, pySlice_map, List.length_map, List.isEmpty_map,
+        map_readingByCandle_strip, Writes.pyIndex_map, Writes.pySlice_map, List.length_map, List.isEmpty_map,
         strip_positive, strip_negative, strip_realbody, strip_shadowUpper, strip_shadowLower, strip_highLow,
         strip_o, strip_h, strip_l, strip_c, strip_v,
         readOK_open, readOK_high, readOK_low, readOK_close, readOK_volume,
-        map_bind, bind_map_left, map_pure, bind_assoc, pure_bind, map_ite', ite_bind', stripRes, $ts,*])
+        map_bind, bind_map_left, map_pure, bind_assoc, pure_bind, Writes.map_ite', Writes.ite_bind', stripRes, $ts,*])
 
 /-! ### kinds that only read -/
 
@@ -289,7 +289,7 @@ theorem runAnalysis_strip (a : Analysis) (hr : ∀ r, r ∈ a.inputs → readOK 
 /-! ### kinds that write helper series while computing -/
 
 omit [PyF F] in
-theorem modify_map_comm {α β : Type} (g : α → β) (f : α → α) (f' : β → β) (hf : ∀ a, f' (g a) = g (f a))
+theorem Writes.modify_map_comm {α β : Type} (g : α → β) (f : α → α) (f' : β → β) (hf : ∀ a, f' (g a) = g (f a))
     (l : List α) (j : Nat) : (l.map g).modify j f' = (l.modify j f).map g := by
   apply List.ext_getElem?
   intro k
@@ -300,7 +300,7 @@ theorem modify_map_comm {α β : Type} (g : α → β) (f : α → α) (f' : β 
 
 omit [PyF F] in
 /-- a per-candle write that commutes with `strip` -/
-theorem updateAt_strip (f : Candle F → Candle F) (hf : ∀ c, f (strip N c) = strip N (f c))
+theorem Writes.updateAt_strip (f : Candle F → Candle F) (hf : ∀ c, f (strip N c) = strip N (f c))
     (cs : List (Candle F)) (i : Int) :
     updateAt (cs.map (strip N)) i f = List.map (strip N) <$> updateAt cs i f := by
   unfold updateAt
@@ -308,30 +308,30 @@ theorem updateAt_strip (f : Candle F → Candle F) (hf : ∀ c, f (strip N c) = 
   generalize (if i < 0 then (cs.length : Int) + i else i) = j
   by_cases hc : j < 0 ∨ j ≥ cs.length
   · simp only [hc, if_true]; rfl
-  · simp only [hc, if_false]; rw [modify_map_comm (strip N) f f hf]; rfl
+  · simp only [hc, if_false]; rw [Writes.modify_map_comm (strip N) f f hf]; rfl
 
 omit [PyF F] in
-theorem strip_setInds {n : String} (hn : n ∉ N) (v : Val F) (c : Candle F) :
+theorem Writes.strip_setInds {n : String} (hn : n ∉ N) (v : Val F) (c : Candle F) :
     ({ strip N c with inds := dset n v (strip N c).inds } : Candle F)
       = strip N { c with inds := dset n v c.inds } := by
   simp [strip, eraseAll_dset hn]
 
 omit [PyF F] in
-theorem strip_setSubs {n : String} (hn : n ∉ N) (v : Val F) (c : Candle F) :
+theorem Writes.strip_setSubs {n : String} (hn : n ∉ N) (v : Val F) (c : Candle F) :
     ({ strip N c with subs := dset n v (strip N c).subs } : Candle F)
       = strip N { c with subs := dset n v c.subs } := by
   simp [strip, eraseAll_dset hn]
 
 omit [PyF F] in
 /-- `_set_reading` under a name outside `N` commutes with `strip N` -/
-theorem setReading_strip {n : String} (hn : n ∉ N) (isSub : Bool) (cs : List (Candle F)) (i : Int) (v : Val F) :
+theorem Writes.setReading_strip {n : String} (hn : n ∉ N) (isSub : Bool) (cs : List (Candle F)) (i : Int) (v : Val F) :
     setReading isSub n (cs.map (strip N)) i v = List.map (strip N) <$> setReading isSub n cs i v := by
   unfold setReading
-  apply updateAt_strip
+  apply Writes.updateAt_strip
   intro c
   cases isSub
-  · exact strip_setInds hn v c
-  · exact strip_setSubs hn v c
+  · exact Writes.strip_setInds hn v c
+  · exact Writes.strip_setSubs hn v c
 
 variable {ops ops' : Ops F}
 
@@ -395,7 +395,7 @@ theorem Calc.macd_strip (hops : OpsStrip N ops ops') (cs : List (Candle F)) (i :
   have hu : ∀ (v : Val F) (cs : List (Candle F)),
       updateAt (cs.map (strip N)) i (fun c => { c with inds := dset nm v c.inds })
         = List.map (strip N) <$> updateAt cs i (fun c => { c with inds := dset nm v c.inds }) :=
-    fun v cs => updateAt_strip _ (fun c => strip_setInds hn v c) cs i
+    fun v cs => Writes.updateAt_strip _ (fun c => Writes.strip_setInds hn v c) cs i
   unfold Calc.macd; strip_simp [h1, h2, h3, hops.hset, hops.hcalc, hu]
 
 /-! ### all kinds -/
@@ -425,7 +425,7 @@ def kindReads (k : Kind F) (nm : String) : List String :=
   | .amorph a => a.inputs
 
 omit [PyF F] in
-theorem pure'_strip (cs : List (Candle F)) (r r' : PyM (Val F)) (h : r' = r) :
+theorem Writes.pure'_strip (cs : List (Candle F)) (r r' : PyM (Val F)) (h : r' = r) :
     (do let v ← r'; return (v, cs.map (strip N))) = stripRes N <$> (do let v ← r; return (v, cs)) := by
   subst h
   cases r' <;> rfl
@@ -440,34 +440,34 @@ theorem calcKind_strip (hops : OpsStrip N ops ops') (ind : Ind F) (cs : List (Ca
   cases hk : ind.kind <;> rw [hk] at hr <;>
     simp only [kindReads, List.mem_cons, List.mem_nil_iff, or_false, forall_eq_or_imp, forall_eq,
       List.not_mem_nil, false_imp_iff, implies_true] at hr <;> dsimp only
-  case sma p input => exact pure'_strip cs _ _ (Calc.sma_strip cs i nm p input hr.1 hr.2)
-  case ema p input sm => exact pure'_strip cs _ _ (Calc.ema_strip cs i nm p input sm hr.1 hr.2)
-  case rma p input => exact pure'_strip cs _ _ (Calc.rma_strip cs i nm p input hr.1 hr.2)
-  case wma p input => exact pure'_strip cs _ _ (Calc.wma_strip cs i nm p input hr.1 hr.2)
-  case vwma p => exact pure'_strip cs _ _ (Calc.vwma_strip cs i nm p hr)
+  case sma p input => exact Writes.pure'_strip cs _ _ (Calc.sma_strip cs i nm p input hr.1 hr.2)
+  case ema p input sm => exact Writes.pure'_strip cs _ _ (Calc.ema_strip cs i nm p input sm hr.1 hr.2)
+  case rma p input => exact Writes.pure'_strip cs _ _ (Calc.rma_strip cs i nm p input hr.1 hr.2)
+  case wma p input => exact Writes.pure'_strip cs _ _ (Calc.wma_strip cs i nm p input hr.1 hr.2)
+  case vwma p => exact Writes.pure'_strip cs _ _ (Calc.vwma_strip cs i nm p hr)
   case hma p input => exact Calc.hma_strip hops cs i nm hr.1 hr.2.1 hr.2.2
-  case tr => exact pure'_strip cs _ _ (Calc.tr_strip cs i nm)
-  case atr p => exact pure'_strip cs _ _ (Calc.atr_strip cs i nm p _ hr.1 hr.2)
+  case tr => exact Writes.pure'_strip cs _ _ (Calc.tr_strip cs i nm)
+  case atr p => exact Writes.pure'_strip cs _ _ (Calc.atr_strip cs i nm p _ hr.1 hr.2)
   case stdev p input => exact Calc.stdev_strip hops cs i nm p input hr.1 hr.2.1 hr.2.2
-  case bbands p input => exact pure'_strip cs _ _ (Calc.bbands_strip cs i nm _ _ hr.1 hr.2)
-  case kc p input m => exact pure'_strip cs _ _ (Calc.kc_strip cs i nm m hr.1 hr.2)
-  case donchian p => exact pure'_strip cs _ _ (Calc.donchian_strip cs i nm p hr)
-  case hl p => exact pure'_strip cs _ _ (Calc.hl_strip cs i nm p)
-  case hla => exact pure'_strip cs _ _ (Calc.hla_strip cs i nm)
+  case bbands p input => exact Writes.pure'_strip cs _ _ (Calc.bbands_strip cs i nm _ _ hr.1 hr.2)
+  case kc p input m => exact Writes.pure'_strip cs _ _ (Calc.kc_strip cs i nm m hr.1 hr.2)
+  case donchian p => exact Writes.pure'_strip cs _ _ (Calc.donchian_strip cs i nm p hr)
+  case hl p => exact Writes.pure'_strip cs _ _ (Calc.hl_strip cs i nm p)
+  case hla => exact Writes.pure'_strip cs _ _ (Calc.hla_strip cs i nm)
   case supertrend p input m =>
     exact Calc.supertrend_strip hops cs i nm m hr.1 hr.2.1 hr.2.2.1 hr.2.2.2.1 hr.2.2.2.2
-  case stdevthres p input m => exact pure'_strip cs _ _ (Calc.stdevthres_strip cs i nm input m hr.1 hr.2)
-  case counter input cv => exact pure'_strip cs _ _ (Calc.counter_strip cs i nm input cv hr.1 hr.2)
+  case stdevthres p input m => exact Writes.pure'_strip cs _ _ (Calc.stdevthres_strip cs i nm input m hr.1 hr.2)
+  case counter input cv => exact Writes.pure'_strip cs _ _ (Calc.counter_strip cs i nm input cv hr.1 hr.2)
   case rsi p input => exact Calc.rsi_strip hops cs i nm p input hr.1 hr.2.1 hr.2.2.1 hr.2.2.2.1 hr.2.2.2.2
   case macd f s g input => exact Calc.macd_strip hops cs i nm hn hr.1 hr.2.1 hr.2.2
-  case roc p input => exact pure'_strip cs _ _ (Calc.roc_strip cs i nm p input hr.1 hr.2)
+  case roc p input => exact Writes.pure'_strip cs _ _ (Calc.roc_strip cs i nm p input hr.1 hr.2)
   case stoch p sl sk input => exact Calc.stoch_strip hops cs i nm p input hr.1 hr.2.1 hr.2.2
   case tsi p sm input => exact Calc.tsi_strip hops cs i nm input hr.1 hr.2.1 hr.2.2
-  case aroon p => exact pure'_strip cs _ _ (Calc.aroon_strip cs i nm p)
+  case aroon p => exact Writes.pure'_strip cs _ _ (Calc.aroon_strip cs i nm p)
   case adx p sg => exact Calc.adx_strip hops cs i nm hr.1 hr.2.1 hr.2.2.1 hr.2.2.2
-  case obv => exact pure'_strip cs _ _ (Calc.obv_strip cs i nm hr)
+  case obv => exact Writes.pure'_strip cs _ _ (Calc.obv_strip cs i nm hr)
   case vwap p => exact Calc.vwap_strip hops cs i nm hr.1 hr.2
-  case amorph a => exact pure'_strip cs _ _ (runAnalysis_strip a hr cs i)
+  case amorph a => exact Writes.pure'_strip cs _ _ (runAnalysis_strip a hr cs i)
   case managed => rfl
 
 end Hex
